@@ -26,3 +26,93 @@ func init() {
 		return out
 	}
 }
+
+// Cross-inclusions: every family may refute obligations of properties other
+// than the one whose check lists it (all monitors run in every scenario). So
+// that no such refutation is lost, the checks of those properties also list a
+// stratified sample of the families that can emit their tags.
+func init() {
+	wrap := func(id string, extra func(tier string, seed int64) []Case) {
+		prev := listers[id]
+		listers[id] = func(tier string, seed int64) []Case {
+			return append(prev(tier, seed), extra(tier, seed)...)
+		}
+	}
+	only := func(cs []Case, fam string, every int) []Case {
+		var out []Case
+		n := 0
+		for _, c := range cs {
+			if c.Family == fam {
+				if n%every == 0 {
+					out = append(out, c)
+				}
+				n++
+			}
+		}
+		return out
+	}
+	// the base listers are captured before any wrapping so that the unions do not recurse into each other
+	base := map[string]lister{}
+	for k, v := range listers {
+		base[k] = v
+	}
+	wrap("C01", func(t string, s int64) []Case {
+		out := stratify(base["C04"](t, s), 6)
+		out = append(out, stratify(base["C07"](t, s), 8)...)
+		out = append(out, only(base["C11"](t, s), "legacyclient", 1)...)
+		out = append(out, only(base["C11"](t, s), "legacyserver", 1)...)
+		out = append(out, only(base["C11"](t, s), "settings", 2)...)
+		out = append(out, only(base["C16"](t, s), "shape16", 3)...)
+		return out
+	})
+	wrap("C04", func(t string, s int64) []Case {
+		out := stratify(base["C01"](t, s), 4)
+		out = append(out, only(base["C03"](t, s), "disturb", 8)...)
+		out = append(out, stratify(base["C07"](t, s), 8)...)
+		out = append(out, only(base["C09"](t, s), "rawsrv", 4)...)
+		return out
+	})
+	wrap("C05", func(t string, s int64) []Case {
+		out := only(base["C01"](t, s), "streams", 3)
+		out = append(out, only(base["C02"](t, s), "meta", 4)...)
+		out = append(out, only(base["C02"](t, s), "hdrtiming", 2)...)
+		out = append(out, only(base["C08"](t, s), "idstorm", 3)...)
+		out = append(out, only(base["C17"](t, s), "identity", 3)...)
+		out = append(out, only(base["C16"](t, s), "appsend16", 1)...)
+		return out
+	})
+	wrap("C07", func(t string, s int64) []Case {
+		out := only(base["C09"](t, s), "blockedsend", 1)
+		out = append(out, only(base["C08"](t, s), "startcancel", 2)...)
+		return out
+	})
+	wrap("C10", func(t string, s int64) []Case {
+		var out []Case
+		for _, c := range base["C03"](t, s) {
+			if c.Family == "disturb" && c.S["kind"] == "after-shutdown" {
+				out = append(out, c)
+			}
+		}
+		return out
+	})
+	wrap("C12", func(t string, s int64) []Case {
+		out := only(base["C10"](t, s), "shutdown", 4)
+		out = append(out, only(base["C17"](t, s), "identity", 3)...)
+		return out
+	})
+	wrap("C17", func(t string, s int64) []Case { return only(base["C12"](t, s), "registry", 4) })
+	wrap("C02", func(t string, s int64) []Case { return only(base["C17"](t, s), "identity", 3) })
+	wrap("C03", func(t string, s int64) []Case {
+		out := overrunCases(t, s)
+		out = append(out, only(base["C09"](t, s), "blockedsend", 1)...)
+		out = append(out, only(base["C16"](t, s), "shape16", 4)...)
+		return out
+	})
+	wrap("C15", func(t string, s int64) []Case {
+		// bubble families with many concurrent starters, under the race detector
+		out := only(base["C08"](t, s), "idstorm", 4)
+		out = append(out, only(base["C01"](t, s), "streams", 8)...)
+		out = append(out, only(base["C12"](t, s), "keyrace", 6)...)
+		return out
+	})
+}
